@@ -752,6 +752,11 @@ func (interp *Interpreter) cfg(root *node, sc *scope, importPath, pkgName string
 						}
 						// Do not overload existing symbols (defined in GTA) in global scope.
 						sym, _, _ = sc.lookup(dest.ident)
+						if sym != nil && !sc.global && n.nleft > 1 {
+							// In a multiple short variable declaration, a variable already
+							// declared in the scope is assigned, not created.
+							dest.redeclared = true
+						}
 					}
 					if sym == nil {
 						sym = &symbol{index: sc.add(dest.typ), kind: varSym, typ: dest.typ}
